@@ -43,13 +43,40 @@ pub fn drive<E: Driveable>(out: &str, o: &DriveOpts) {
     let n = d.n;
     let actor_of = |r: usize| r as u8;
     let mut events = 0u64;
+    // watchdog: a driver call that does not return is reported (exit code 3, one JSON line) instead of blocking the check
+    let cur: std::sync::Arc<std::sync::Mutex<(u64, Value)>> = std::sync::Arc::new(std::sync::Mutex::new((0, Value::Null)));
+    {
+        let cur = cur.clone();
+        let hang_secs = crate::hang_limit();
+        std::thread::spawn(move || {
+            let mut seen = (0u64, std::time::Instant::now());
+            loop {
+                std::thread::sleep(std::time::Duration::from_millis(500));
+                let (n, a) = { let g = cur.lock().unwrap(); (g.0, g.1.clone()) };
+                if n != seen.0 {
+                    seen = (n, std::time::Instant::now());
+                } else if n != 0 && seen.1.elapsed().as_secs() >= hang_secs {
+                    println!("{}", json!({"hang": a, "secs": hang_secs}));
+                    std::process::exit(3);
+                }
+            }
+        });
+    }
     for hno in 0..o.histories {
         let mut sys: Sys<E> = Sys::new(n);
         for _ in 0..o.steps {
             let roll: f64 = rng.gen();
             let r = rng.gen_range(1..=n);
             let act: Option<Value> = if roll < 0.35 && sys.ops.len() < o.max_ops {
-                E::random_cmd(&sys.st[r - 1], r, &mut rng, &d).map(|c| json!(["gen", r, c]))
+                // choosing a command reads the replica through the public API: a panic there is the library's
+                match crate::core::catch(|| E::random_cmd(&sys.st[r - 1], r, &mut rng, &d)) {
+                    Ok(c) => c.map(|c| json!(["gen", r, c])),
+                    Err(e) => {
+                        writeln!(w, "{}", json!({"a": "panic", "r": r, "h": hno, "what": format!("PANIC while reading replica {}: {}", r, e), "act": ["read", r, 0]})).unwrap();
+                        events += 1;
+                        break;
+                    }
+                }
             } else if roll < 0.75 {
                 // a delivery allowed by the regime
                 let cands: Vec<usize> = (1..=sys.ops.len())
@@ -96,6 +123,11 @@ pub fn drive<E: Driveable>(out: &str, o: &DriveOpts) {
                 Some(a) => a,
                 None => continue,
             };
+            {
+                let mut g = cur.lock().unwrap();
+                g.0 += 1;
+                g.1 = json!({"history": hno, "act": act});
+            }
             let who = match sys.step(&act, &actor_of) {
                 Ok(w) => w,
                 Err(e) => {
@@ -106,11 +138,19 @@ pub fn drive<E: Driveable>(out: &str, o: &DriveOpts) {
             };
             let rr = act[1].as_u64().unwrap() as usize;
             let s = &sys.st[rr - 1];
-            let ev = json!({
+            let ev = match crate::core::catch(|| json!({
                 "a": act[0], "r": rr, "x": act[2], "h": hno,
                 "post": E::proj(s, &d), "tpost": E::trace_post(s, &d), "reads": E::reads(s, &d),
                 "op": match sys.last_op.as_ref() { Some(op) => json!([E::op_proj(op, &d)]), None => json!([]) },
-            });
+            })) {
+                Ok(ev) => ev,
+                Err(e) => {
+                    // the call returned but the replica cannot be read any more
+                    writeln!(w, "{}", json!({"a": "panic", "r": rr, "h": hno, "what": format!("PANIC while reading replica {} after the call: {}", rr, e), "act": act})).unwrap();
+                    events += 1;
+                    break;
+                }
+            };
             let _ = who;
             writeln!(w, "{}", no_nulls(ev)).unwrap();
             events += 1;
@@ -119,6 +159,7 @@ pub fn drive<E: Driveable>(out: &str, o: &DriveOpts) {
         writeln!(w, "{}", no_nulls(json!({"a": "reset", "r": 1, "x": 0, "h": hno, "post": E::proj(&fresh, &d), "tpost": E::trace_post(&fresh, &d), "reads": E::reads(&fresh, &d), "op": []}))).unwrap();
         events += 1;
     }
+    cur.lock().unwrap().0 = 0; // done: the watchdog stands down
     w.flush().unwrap();
     println!("{}", json!({"events": events, "histories": o.histories}));
 }
